@@ -80,7 +80,10 @@ def _imported_flags():
 
 def build(tier, seed):
     set_tier(tier)
-    tasks = [standin_task(PROP, "projects.imported_binding_flags", _imported_flags, "ford.external_project.obj2dict / dict2obj (real)",
+    tasks = [standin_task(PROP, "parser.spelling_equivalence", lambda: __import__("bounded.c01", fromlist=["x"]).search(), "ford.sourceform (real parser)",
+                          "the entity tree the declarations are rendered from: enumerator values, results matched to their declarations in any letter case", "model programs of C01"),
+             Task(f"{PROP}.S.casefold.names", PROP, "comparisons of entity names", lambda: __import__("contracts.casefold", fromlist=["x"]).name_obligations(PROP)),
+             standin_task(PROP, "projects.imported_binding_flags", _imported_flags, "ford.external_project.obj2dict / dict2obj (real)",
                           "bindings a type of B inherits from a type of an external project are declared as in that project's source (generic / deferred flags after the round trip through modules.json)", "1 project pair"),
              Task(f"{PROP}.S.lower", PROP, "FortranContainer.__init__", lambda: __import__("contracts.plumbing", fromlist=["x"]).lower_after_masking(PROP, lambda: __import__("bounded.c18", fromlist=["x"]).decl_search())),
              a_task(PROP, _ft), a_task(PROP, _fd), Task(f"{PROP}.S.templates", PROP, "templates", lambda: declarations.template_escapes(PROP) + declarations.literal_reinsertion_is_last(PROP)),
